@@ -12,6 +12,29 @@ package hrpc
 //@   panics never[C11]
 //@   ensures[C11] r2 != nil ==> r0 == nil && r1 == 0
 //@   ensures[C11] r2 == nil ==> r0 != nil && r1 <= len(b)
+//@   ensures[C10] r2 == nil ==> cellAt(r0, b)
+//@   ensures[C10] r2 == nil && len(b) < 4294967296 ==> r1 == be32(b) + 4
+//@   ensures[C10] validKV(b) ==> r2 == nil
+
+// validKV(b): b starts with a complete, self-consistent KeyValue (what a conforming writer produces)
+//@ pred hrpc.validKV(b) = len(b) >= 4 && be32(b) + 4 <= len(b) && be32(b) >= 20 && \
+//@     4 + 4 + be32(b[4:]) + be32(b[8:]) == be32(b) && be32(b[4:]) >= 2 + be16(b[12:]) + 1 + b[14+be16(b[12:])] + 8 + 1
+
+// cellAt(c, b): the cell c is exactly the KeyValue found at the start of b: every component is the sub-range of b
+// that the header fields name (the independent reading of the HBase KeyValue layout), nothing is copied or altered.
+//@ pred hrpc.cellAt(c, b) = \
+//@     14 + be16(b[12:]) + 1 + b[14+be16(b[12:])] + 8 + 1 <= 8 + be32(b[4:]) + 4 && \
+//@     sameslice(c.Row, b[14 : 14+be16(b[12:])]) && \
+//@     sameslice(c.Family, b[15+be16(b[12:]) : 15+be16(b[12:])+b[14+be16(b[12:])]]) && \
+//@     sameslice(c.Qualifier, b[15+be16(b[12:])+b[14+be16(b[12:])] : 12+be32(b[4:])-9]) && \
+//@     c.Timestamp != nil && *c.Timestamp == be64(b[12+be32(b[4:])-9:]) && \
+//@     c.CellType != nil && *c.CellType == b[12+be32(b[4:])-1] && \
+//@     sameslice(c.Value, b[12+be32(b[4:]) : 12+be32(b[4:])+be32(b[8:])]) && \
+//@     4 + 4 + be32(b[4:]) + be32(b[8:]) == be32(b) && be32(b) + 4 <= len(b)
+
+//@ func pb.CellType.Enum
+//@   modifies nothing
+//@   ensures[C10] r0 != nil && *r0 == x
 
 //@ func hrpc.deserializeCellBlocks
 //@   modifies nothing
@@ -72,3 +95,72 @@ package hrpc
 //@   pure
 //@ func hrpc.Call.Key() (r)
 //@   pure
+
+// ---- KeyValue cellblock writer (C10, C05) ----
+
+//@ func hrpc.cellblockLen
+//@   requires 0 <= rowLen && 0 <= familyLen && 0 <= qualifierLen && 0 <= valueLen
+//@   requires rowLen + familyLen + qualifierLen + valueLen < 2147483000
+//@   modifies nothing
+//@   overflow checked
+//@   panics never[C10]
+//@   ensures[C10,C05] r0 == 4 + 4 + 4 + 2 + rowLen + 1 + familyLen + qualifierLen + 8 + 1 + valueLen
+
+// kvAt(out, o, row, family, qualifier, ts, typ, value): the bytes of out starting at o are the HBase KeyValue
+// <4 kvlen><4 keylen><4 vallen><2 rowlen><row><1 famlen><family><qualifier><8 ts><1 type><value>
+//@ pred hrpc.kvAt(out, o, row, family, qualifier, ts, typ, value) = \
+//@     be32(out[o:]) == 4 + 4 + (2 + len(row) + 1 + len(family) + len(qualifier) + 8 + 1) + len(value) && \
+//@     be32(out[o+4:]) == 2 + len(row) + 1 + len(family) + len(qualifier) + 8 + 1 && \
+//@     be32(out[o+8:]) == len(value) && \
+//@     be16(out[o+12:]) == len(row) && \
+//@     forall(k, 0 <= k && k < len(row), out[o+14+k] == row[k]) && \
+//@     out[o+14+len(row)] == len(family) && \
+//@     forall(k, 0 <= k && k < len(family), out[o+15+len(row)+k] == family[k]) && \
+//@     forall(k, 0 <= k && k < len(qualifier), out[o+15+len(row)+len(family)+k] == qualifier[k]) && \
+//@     be64(out[o+15+len(row)+len(family)+len(qualifier):]) == ts && \
+//@     out[o+23+len(row)+len(family)+len(qualifier)] == typ && \
+//@     forall(k, 0 <= k && k < len(value), out[o+24+len(row)+len(family)+len(qualifier)+k] == value[k])
+
+//@ func hrpc.appendCellblock
+//@   requires len(row) <= 65535 && len(family) <= 255
+//@   requires len(row) + len(family) + len(qualifier) + len(value) < 2147483000
+//@   modifies nothing
+//@   panics never[C10]
+//@   ensures[C10,C05] len(r0) == len(cbs) + 4 + 4 + 4 + 2 + len(row) + 1 + len(family) + len(qualifier) + 8 + 1 + len(value)
+//@   ensures[C10,C05] forall(k, 0 <= k && k < len(cbs), r0[k] == old(cbs[k]))
+//@   ensures[C10,C05] kvAt(r0, len(cbs), row, family, qualifier, ts, typ, value)
+
+// The round trip of C10: for every row up to 64 KiB-1, family up to 255 bytes, any qualifier, value, timestamp and
+// type, and any bytes already in the buffer, the reader returns exactly what the writer was given and consumes
+// exactly the bytes that were written.
+//@ func hrpc.ghostCellRoundTrip
+//@   requires len(row) <= 65535 && len(family) <= 255
+//@   requires len(row) + len(family) + len(qualifier) + len(value) < 2147483000
+//@   ensures[C10] r2 == nil && r0 != nil
+//@   ensures[C10] r1 == 4 + 4 + 4 + 2 + len(row) + 1 + len(family) + len(qualifier) + 8 + 1 + len(value)
+//@   ensures[C10] seqeq(r0.Row, row) && seqeq(r0.Value, value)
+//@   ensures[C10] len(r0.Family) == len(family) && forall(k, 0 <= k && k < len(family), r0.Family[k] == family[k])
+//@   ensures[C10] len(r0.Qualifier) == len(qualifier) && forall(k, 0 <= k && k < len(qualifier), r0.Qualifier[k] == qualifier[k])
+//@   ensures[C10] r0.Timestamp != nil && *r0.Timestamp == ts && r0.CellType != nil && *r0.CellType == typ
+
+// ---- the two encodings of a mutation agree cell by cell (C10) ----
+// Both functions range over m.values; for every cell they emit, the KeyValue type (cellblock form) and the
+// DeleteType (protobuf form) are the images of the same (is-delete, whole-family, one-version) triple under HBase's
+// own correspondence table, the timestamp follows the same rule, and the qualifier/value come from the same inner map
+// (a nil inner map of a delete stands for the single empty qualifier in both).
+
+//@ func hrpc.(*Mutate).valuesToCellblocks
+//@   requires len(m.key) <= 65535
+//@   requires forall(f, haskey(m.values, f) ==> strlen(f) <= 255)
+//@   requires forall(f, q, haskey(m.values, f) && haskey(m.values[f], q), strlen(q) + len(m.values[f][q]) < 2147000000)
+//@   requires emptyQualifier != nil && forall(q, haskey(emptyQualifier, q) ==> strlen(q) == 0 && len(emptyQualifier[q]) == 0)
+//@   at call appendCellblock#1 assert[C10] mt == kvTypeOfMutation(m.mutationType == 3, len(m.values[family]) == 0, m.deleteOneVersion)
+//@   at call appendCellblock#1 assert[C10] ts == ite(m.timestamp == 18446744073709551615, 9223372036854775807, m.timestamp)
+//@   at call appendCellblock#1 assert[C10] haskey(ite(m.mutationType == 3 && m.values[family] == nil, emptyQualifier, m.values[family]), k1)
+//@   at call appendCellblock#1 assert[C10] sameslice(v1, ite(m.mutationType == 3 && m.values[family] == nil, emptyQualifier, m.values[family])[k1])
+
+//@ func hrpc.(*Mutate).valuesToProto
+//@   requires *MutationProtoDeleteFamilyVersion == 3 && *MutationProtoDeleteFamily == 2 && *MutationProtoDeleteOneVersion == 0 && *MutationProtoDeleteMultipleVersions == 1
+//@   loop 2 invariant[C10] m.mutationType != 3 ==> dt == nil
+//@   loop 2 invariant[C10] m.mutationType == 3 ==> dt != nil && *dt == pbDeleteKind(len(m.values[k]) == 0, m.deleteOneVersion)
+//@   loop 2 invariant[C10] v == ite(m.mutationType == 3 && m.values[k] == nil, emptyQualifier, m.values[k])
